@@ -1,7 +1,16 @@
 #!/bin/bash
-# development helper: sync harness+simrt into the persistent dev copy and build
+# development helper: sync harness+simrt into the persistent dev copy and build.
+# dev.sh --repo  re-copies /repo's working tree and re-runs the instrumenter first.
 export GOFLAGS=-mod=mod GOPROXY=off GOSUMDB=off GOTOOLCHAIN=local
 D=/var/tmp/goatdev
+if [ "${1:-}" = "--repo" ]; then
+  shift
+  (cd /verif/tools/simrewrite && go build -o /var/tmp/simrewrite .) || exit 2
+  rm -rf $D; mkdir -p $D/verifsim
+  (cd /repo && find . -path ./.git -prune -o -type f -print0 | grep -zv '^\./\.git/' | xargs -0 cp --parents -t $D)
+  cp -r /verif/simrt $D/verifsim/simrt
+  (cd $D && /var/tmp/simrewrite -dir .) || exit 2
+fi
 rsync -a --delete /verif/simrt/ $D/verifsim/simrt/
 rsync -a --delete /verif/harness/ $D/verifsim/harness/
 cd $D && go build -o /var/tmp/goatsim ./verifsim/harness "$@"
